@@ -203,6 +203,9 @@ type Opts struct {
 	// NodeIDs overrides the Node ID a node names itself by (default: the address of its socket); the UPF sends its own
 	// requests to port 8805 of the Node ID, so a node naming an address that cannot be reached never sees them
 	NodeIDs map[int]string
+	// NodeAddrs overrides the address a node's socket is bound to (default: 127.<net>.<2+i>); with "127.0.0.1" and the Node ID
+	// "localhost" a node can name itself by a host name the UPF resolves
+	NodeAddrs map[int]string
 }
 
 // Net is the per-process loopback subnet 127.<net2>.<net3>.x, reserved by
@@ -301,7 +304,11 @@ func New(o Opts) (*Stack, error) {
 		return fail(err)
 	}
 	for i := 0; i < o.Nodes; i++ {
-		sk, err := newSock(n.IP(2+i), 8805)
+		ip := n.IP(2 + i)
+		if a, ok := o.NodeAddrs[i]; ok {
+			ip = a
+		}
+		sk, err := newSock(ip, 8805)
 		if err != nil {
 			return fail(err)
 		}
